@@ -141,10 +141,13 @@ def parse_log(text):
                 r["unwind_fail"].append("%s:%s %s" % (cur_file, lno, cur_fn))
             elif desc.startswith("C07-model:"):
                 r["model_fail"].append(desc)
-            elif "dora-asm/src" in cur_file or cur_fn.startswith("dora_asm::") or name.startswith("dora_asm::"):
-                r["refusals"].append({"what": desc, "where": "%s:%s" % (os.path.basename(cur_file), lno), "function": cur_fn})
-            else:
+            elif cur_file.startswith("src/") or "kani_x64" in cur_file or cur_fn.startswith("harnesses::") or cur_fn.startswith("decoder::"):
+                # a failing check inside the harness crate itself (decoder, comparison): our bug
                 r["other_fail"].append({"what": desc, "where": "%s:%s %s" % (cur_file, lno, cur_fn)})
+            else:
+                # assertion / panic inside dora-asm, or a std panic path reached from it
+                # (unwrap, expect, index): the assembler refuses these operands
+                r["refusals"].append({"what": desc, "where": "%s:%s" % (os.path.basename(cur_file), lno), "function": cur_fn})
     m = re.search(r"^VERIFICATION (\w+)", text, re.M)
     if m:
         r["verdict"] = m.group(1)
